@@ -393,15 +393,20 @@ class FTPProcessorSession(BaseProcessorSession):
                     not fnmatch.fnmatchcase(file_entry.name, self._glob_pattern):
                 continue
 
+            # The name is a file name, not a URL reference: "#", "?", "%"
+            # and ":" in it stand for themselves.
+            quoted_name = urllib.parse.quote(
+                file_entry.name, safe='', errors='surrogateescape')
+
             if file_entry.type == 'dir':
-                linked_url = urljoin_safe(base_url, file_entry.name + '/')
+                linked_url = urljoin_safe(base_url, quoted_name + '/')
             elif file_entry.type in ('file', 'symlink', None):
                 if not self._processor.fetch_params.retr_symlinks and \
                         file_entry.type == 'symlink':
                     self._make_symlink(file_entry.name, file_entry.dest)
                     linked_url = None
                 else:
-                    linked_url = urljoin_safe(base_url, file_entry.name)
+                    linked_url = urljoin_safe(base_url, quoted_name)
             else:
                 linked_url = None
 
